@@ -371,6 +371,31 @@ def write_cfg(path, spec, constants, invariants=(), properties=(), extra=()):
         f.write("CHECK_DEADLOCK FALSE\n")
 
 
+def proof_run(res, name, module, timeout=600):
+    """Re-check a TLAPS proof (spec/proofs/<module>.tla) from scratch. The proof is about the specification only, so a
+    failure here is reported in the evidence (stage not ok) but is not a violation of the code; the bounded TLC runs and
+    the trace validation decide the property either way."""
+    import re
+    import shutil
+    wd = os.path.join(WORK, f"proof-{name}-{os.getpid()}")
+    shutil.rmtree(wd, ignore_errors=True)
+    os.makedirs(wd)
+    shutil.copy(os.path.join(SPEC, "proofs", module), wd)
+    t0 = time.time()
+    try:
+        rc, out = sh(["tlapm", "--threads", "4", "--cleanfp", module], cwd=wd, timeout=timeout)
+    except Exception as e:           # tool missing / timeout
+        rc, out = 99, str(e)
+    m = re.search(r"All (\d+) obligations? proved", out)
+    stage = {"stage": name, "kind": "tlaps-proof", "module": "proofs/" + module, "ok": bool(m) and rc == 0,
+             "obligations_proved": int(m.group(1)) if m else 0, "wall_s": round(time.time() - t0, 1)}
+    if not stage["ok"]:
+        stage["tool_output_tail"] = out[-600:]
+    res.stages.append(stage)
+    shutil.rmtree(wd, ignore_errors=True)
+    return stage
+
+
 def design_run(res, pid, name, module, spec, constants, invariants=(), properties=(), expect_violation=None,
                workers=10, timeout=3600, xmx="12g", workdir=None):
     """Exhaustive TLC run of a design-level model. A violated property is a VIOLATION of `pid`
